@@ -29,6 +29,11 @@ func harnessDir() string {
 // gramPrepare returns a Prepare step that generates count(tier) grammars per
 // batch with opts, emits one program per batch and builds them in parallel.
 func gramPrepare(id string, count func(tier string) int, opts func(r *mon.RNG, i int) *gram.GenOpts, extra func(p *mon.Parent, batch int) []*gram.Grammar, race bool) func(p *mon.Parent) (func(int) string, error) {
+	return gramPrepareEx(id, count, opts, extra, race, nil)
+}
+
+// gramPrepareEx additionally lets the property add files to each program directory before the build.
+func gramPrepareEx(id string, count func(tier string) int, opts func(r *mon.RNG, i int) *gram.GenOpts, extra func(p *mon.Parent, batch int) []*gram.Grammar, race bool, post func(dir string) error) func(p *mon.Parent) (func(int) string, error) {
 	return func(p *mon.Parent) (func(int) string, error) {
 		bins := make([]string, p.NBatch)
 		errs := make([]error, p.NBatch)
@@ -58,6 +63,12 @@ func gramPrepare(id string, count func(tier string) int, opts func(r *mon.RNG, i
 				if err := gram.EmitProgram(dir, gs, harnessDir()); err != nil {
 					errs[b] = err
 					return
+				}
+				if post != nil {
+					if err := post(dir); err != nil {
+						errs[b] = err
+						return
+					}
 				}
 				bins[b], errs[b] = gram.BuildProgram(dir, race)
 			}()
